@@ -449,16 +449,42 @@ Script gen_c07(uint64_t seed, const std::string& tier, Rng& r)
     s.cfg.node_cap = 30000;
     // a long game, checked along the way; shuffling phases to reach repetitions and high clocks
     PosSpec p;
-    uint64_t src = r.below(10);
+    uint64_t src = r.below(12);
     if (src < 6) p.start_fen.clear();
     else if (src < 8) p.start_fen = curated_fens()[r.below(curated_fens().size())];
-    else p.start_fen = gen_sparse_fen(r, 1, 6, true);
+    else if (src < 10) p.start_fen = gen_sparse_fen(r, 1, 6, true);
+    else
+    {
+        // castling still possible, clock already running: castle, then shuffle towards the 50-move limit
+        static const char* castle_ready[] = {"r3k2r/pppq1ppp/2npbn2/2b1p3/2B1P3/2NPBN2/PPPQ1PPP/R3K2R w KQkq - %d 12", "r3k2r/8/8/8/8/8/8/R3K2R w KQkq - %d 40",
+                                             "r3k2r/pppppppp/8/8/8/8/PPPPPPPP/R3K2R b KQkq - %d 30", "4k2r/8/8/8/8/8/8/R3K3 w Qk - %d 50"};
+        char buf[128];
+        snprintf(buf, sizeof buf, castle_ready[r.below(4)], int(r.range(0, 97)));
+        p.start_fen = buf;
+    }
     p.game = ref::Game(p.start_fen.empty() ? ref::Board() : ref::Board(p.start_fen));
+    if (src >= 10)
+    {
+        // try to castle within the first plies
+        for (int i = 0; i < 4; ++i)
+        {
+            auto ms = p.game.cur.legal();
+            bool done = false;
+            for (auto& m : ms)
+                if (ref::kind_of(p.game.cur.sq[m.from]) == ref::KIND_K && std::abs(ref::file_of(m.to) - ref::file_of(m.from)) == 2 && r.chance(0.8))
+                {
+                    p.game.push(m);
+                    done = true;
+                    break;
+                }
+            if (!done) playout(p.game, r, 1, 0.0);
+        }
+    }
     int total = int(r.logrange(4, 600));
     int checks = 0;
     while (int(p.game.moves.size()) < total && checks < 40)
     {
-        int chunk = int(r.logrange(1, 40));
+        int chunk = int(r.logrange(1, 150));
         // phases: normal play, or quiet shuffling (no captures / pawn moves) to drive the clock and repetitions
         if (r.chance(0.5))
         {
